@@ -1,6 +1,7 @@
 package checks
 
 import (
+	"strings"
 	"bytes"
 	"fmt"
 	"os"
@@ -39,7 +40,15 @@ func C19() int {
 			default:
 				l = g.Case(gen.CaseOpts{}).Line
 			}
-			st := []jt.Style{jt.Plain, jt.GoLike, jt.Unicode}[j%3]
+			st := []jt.Style{jt.Plain, jt.GoLike, jt.Unicode, jt.Spaced}[j%4]
+			if (i+j)%5 == 1 {
+				// peer addresses outside attr.remote (4.4 ACCESS lines have attr.client, connection reports nest one)
+				if attr := l.Get("attr"); attr != nil && attr.K == jt.Obj {
+					attr.Set("errMsg", jt.StrN("Document failed validation: "+strings.Repeat("additional details: field 'status' must be one of the allowed values; ", 4+(i+j)%9)+"(code 121)"))
+					attr.Set("client", jt.StrN(fmt.Sprintf("10.2.%d.%d:%d", i%250, j%250, 20000+i)))
+					attr.Set("connection", jt.ObjN("remote", jt.StrN(fmt.Sprintf("192.168.%d.%d:%d", j%250, i%250, 30000+j)), "id", jt.IntN(j)))
+				}
+			}
 			buf.Write(l.Bytes(st))
 			buf.WriteByte('\n')
 			if i%4 == 1 && (i+j)%5 >= 2 {
